@@ -341,16 +341,18 @@ impl From<Tag> for LdapResultExt {
             _ => unimplemented!(),
         };
         let mut tags = t.expect_constructed().expect("result sequence").into_iter();
-        let rc = match parse_uint(
-            tags.next()
-                .expect("element")
-                .match_class(TagClass::Universal)
-                .and_then(|t| t.match_id(Types::Enumerated as u64))
-                .and_then(|t| t.expect_primitive())
-                .expect("result code")
-                .as_slice(),
-        ) {
-            Ok((_, rc)) => rc as u32,
+        let rc_octets = tags
+            .next()
+            .expect("element")
+            .match_class(TagClass::Universal)
+            .and_then(|t| t.match_id(Types::Enumerated as u64))
+            .and_then(|t| t.expect_primitive())
+            .expect("result code");
+        let rc = match parse_uint(rc_octets.as_slice()) {
+            // A code which doesn't fit the field (or the integer parser, which is exact up
+            // to eight octets) must not turn into another code, least of all success.
+            Ok((_, rc)) if rc_octets.len() <= 8 => u32::try_from(rc).unwrap_or(u32::MAX),
+            Ok(_) => u32::MAX,
             _ => panic!("failed to parse result code"),
         };
         let matched = String::from_utf8(
